@@ -1,8 +1,224 @@
-/- Model driver for C12 (stub: no ops yet). -/
+/-
+  Model driver for C12 (wea.py).  Line protocol: see DrvCore.  Mathlib-free.
+
+  Requests (all numbers integers unless said otherwise; `leap`, `onhour` are 0|1):
+    getdt ts leap i…                          entries i of `_get_datetimes(ts, leap)`
+    axis ts leap onhour i…                    public datetimes i of an annual Wea (from_annual_values)
+    annual ts leap n1 n2                      from_annual_values with n1 / n2 values: accepted?
+    header latbits lonbits tzbits elevbits    header numbers of a location (IEEE bit patterns)
+    parsehdr lat100 lon100 tzdeg elev10       `_parse_wea_header` on the header numbers
+    write cont ts leap onhour mode stM stD endM endD        lines of to_file_string (whole-day period)
+    write disc ts leap onhour mode n moy…                   … of a discontinuous Wea at the given minutes
+    read ts leap n (mo da milli v1 v2)…       from_file on data lines
+    dict ts|N leap|N n (arr)… ndni ndhi       from_dict; arr = m-d-h-mi or m-d-h-mi-l, n = N: no key
+    todict cont|disc …(as write, no onhour/mode)            to_dict: datetimes key
+    daysim ts leap n i…                       from_daysim_file on n lines with ids 0…n-1: ids at i…
+    const v (tok… |)…                         to_constant_value on tokenised body lines
+    count n                                   count_timesteps for a file of n lines
+-/
 import Ladybug.DrvCore
+import Ladybug.Model.Wea
+
+open Drv Cal Wea
 
 namespace DrvC12
-def handle (_toks : List String) : String := "bad-op"
+
+def showE : E → String
+  | .value => "err:value"
+  | .index => "err:index"
+  | .type => "err:type"
+  | .assert => "err:assert"
+
+def showDT (d : DT) : String := s!"{d.month}-{d.day}-{d.hour}-{d.minute}-{showBool d.leap}"
+
+def showDTr (r : Except Cal.Err DT) : String :=
+  match r with
+  | .ok d => showDT d
+  | .error e => showE (E.ofCal e)
+
+def showAP (ap : AP) : String :=
+  s!"{ap.st_month} {ap.st_day} {ap.st_hour} {ap.end_month} {ap.end_day} {ap.end_hour} {ap.timestep} {showBool ap.leap}"
+
+/-- Value formulas shared with the harness: mode 0 = distinct ids, mode 1 = halves/quarters with
+    negative entries (pins `%d` truncation against rounding). -/
+def valDni (mode _n i : Nat) : Rat :=
+  if mode = 0 then (i : Rat) else (2 * (i : Rat) - 13) / 2
+def valDhi (mode n i : Nat) : Rat :=
+  if mode = 0 then ((n + i : Nat) : Rat) else (37 - 3 * (i : Rat)) / 4
+
+def withVals (mode : Nat) (cont : Bool) (ap : AP) (dts : List DT) (onHour : Bool) : W Rat :=
+  let n := dts.length
+  ⟨cont, ap, dts, (List.range n).map (valDni mode n), (List.range n).map (valDhi mode n), onHour⟩
+
+/-- IEEE product `float(tok) * 60` of a `%.3f` token given in thousandths. -/
+def prod60Float (milli : Nat) : Rat :=
+  match Py.ratOfFloatBits ((Float.ofNat milli / 1000.0) * 60.0).toBits with
+  | some x => x
+  | none => 0
+
+def showLines (r : Except E (List Line)) : String :=
+  match r with
+  | .error e => showE e
+  | .ok ls => s!"ok {ls.length} " ++ joinSp (ls.map fun l => s!"{l.month} {l.day} {l.milli} {l.v1} {l.v2}")
+
+def showW (r : Except E (W Int)) : String :=
+  match r with
+  | .error e => showE e
+  | .ok w =>
+    let rows := List.zip w.dts (List.zip w.dni w.dhi)
+    let body := joinSp (rows.map fun p => s!"{showDT p.1} {p.2.1} {p.2.2}")
+    if w.cont then s!"ok cont {showAP w.ap} {rows.length} {body}"
+    else s!"ok disc {rows.length} {body}"
+
+def parseLines : List Int → Option (List Line)
+  | [] => some []
+  | mo :: da :: mi :: v1 :: v2 :: rest =>
+    if 0 ≤ mo ∧ 0 ≤ da ∧ 0 ≤ mi then
+      (parseLines rest).map fun t => ⟨mo.toNat, da.toNat, mi.toNat, v1, v2⟩ :: t
+    else none
+  | _ => none
+
+def parseArr (s : String) : Option (List Nat) := (s.splitOn "-").mapM String.toNat?
+
+def optInt? (s : String) : Option (Option Int) :=
+  if s = "N" then some none else s.toInt?.map some
+
+def optBool? (s : String) : Option (Option Bool) :=
+  if s = "N" then some none else (bool? s).map some
+
+/-- Dates of a discontinuous test Wea from minutes of the year. -/
+def dtsOfMoys (leap : Bool) (ms : List Nat) : Option (List DT) :=
+  ms.mapM fun (m : Nat) => (fromMoy leap (m : Int)).toOption
+
+def wholeDayAP (ts : Nat) (leap : Bool) (stM stD endM endD : Nat) : AP := ⟨stM, stD, 0, endM, endD, 23, ts, leap⟩
+
+def atIdx {β : Type} (l : List β) (idx : List Nat) (sh : β → String) : String :=
+  joinSp (idx.map fun i => match l[i]? with | some x => sh x | none => "err:index")
+
+def splitBar (toks : List String) : List (List String) :=
+  let r := toks.foldl (fun (acc : List (List String) × List String) t =>
+    if t = "|" then (acc.2.reverse :: acc.1, []) else (acc.1, t :: acc.2)) ([], [])
+  r.1.reverse
+
+def handle (toks : List String) : String :=
+  match toks with
+  | "getdt" :: ts :: leap :: rest =>
+    match ts.toNat?, bool? leap, nats rest with
+    | some ts, some l, some idx =>
+      if ts = 0 then "err:zero" else "ok " ++ atIdx (getDatetimes ts l) idx showDTr
+    | _, _, _ => "bad-op"
+  | "axis" :: ts :: leap :: onh :: rest =>
+    match ts.toInt?, bool? leap, bool? onh, nats rest with
+    | some ts, some l, some oh, some idx =>
+      match annualAP ts l with
+      | .error e => showE e
+      | .ok ap =>
+        let w : W Unit := ⟨true, ap, contDts ap, [], [], oh⟩
+        s!"ok {w.dts.length} " ++ atIdx w.datetimes idx showDTr
+    | _, _, _, _ => "bad-op"
+  | ["annual", ts, leap, n1, n2] =>
+    match ts.toInt?, bool? leap, n1.toNat?, n2.toNat? with
+    | some ts, some l, some n1, some n2 =>
+      match fromAnnualValues (List.replicate n1 ()) (List.replicate n2 ()) ts l with
+      | .error e => showE e
+      | .ok w => s!"ok {w.dts.length} {showBool w.isAnnual}"
+    | _, _, _, _ => "bad-op"
+  | ["header", la, lo, tz, el] =>
+    match floatBits? la, floatBits? lo, floatBits? tz, floatBits? el with
+    | some la, some lo, some tz, some el =>
+      match Py.ratOfFloatBits la.toBits, Py.ratOfFloatBits lo.toBits, Py.ratOfFloatBits tz.toBits,
+            Py.ratOfFloatBits el.toBits, Py.ratOfFloatBits ((-tz) * 15.0).toBits with
+      | some la, some lo, some tz, some el, some p =>
+        let h := fmtHeader ⟨[], la, lo, tz, el⟩ p
+        s!"ok {h.lat100} {h.lon100} {h.tzDeg} {h.elev10}"
+      | _, _, _, _, _ => "err:value"
+    | _, _, _, _ => "bad-op"
+  | ["parsehdr", la, lo, tz, el] =>
+    match la.toInt?, lo.toInt?, tz.toInt?, el.toInt? with
+    | some la, some lo, some tz, some el =>
+      match parseHeader ⟨[], la, lo, tz, el⟩ with
+      | .error e => showE e
+      | .ok l => s!"ok {showRat l.lat} {showRat l.lon} {showRat l.tz} {showRat l.elev}"
+    | _, _, _, _ => "bad-op"
+  | ["write", "cont", ts, leap, onh, mode, stM, stD, endM, endD] =>
+    match nats [ts, mode, stM, stD, endM, endD], bool? leap, bool? onh with
+    | some [ts, mode, stM, stD, endM, endD], some l, some oh =>
+      let ap := wholeDayAP ts l stM stD endM endD
+      showLines (toLines (withVals mode true ap (contDts ap) oh))
+    | _, _, _ => "bad-op"
+  | "write" :: "disc" :: ts :: leap :: onh :: mode :: _n :: rest =>
+    match nats [ts, mode], bool? leap, bool? onh, nats rest with
+    | some [ts, mode], some l, some oh, some ms =>
+      match dtsOfMoys l ms with
+      | some dts => showLines (toLines (withVals mode false (AP.annual l ts) dts oh))
+      | none => "err:value"
+    | _, _, _, _ => "bad-op"
+  | "read" :: ts :: leap :: _n :: rest =>
+    match ts.toInt?, bool? leap, ints rest with
+    | some ts, some l, some xs =>
+      match parseLines xs with
+      | some ls => showW (fromFile prod60Float ts l ls)
+      | none => "bad-op"
+    | _, _, _ => "bad-op"
+  | "dict" :: ts :: leap :: n :: rest =>
+    match optInt? ts, optBool? leap with
+    | some ts, some l =>
+      let go (arrs : Option (List (List Nat))) (tail : List String) : String :=
+        match nats tail with
+        | some [ndni, ndhi] =>
+          let d : Dict Int := ⟨ts, l, arrs, (List.range ndni).map (fun (i : Nat) => (i : Int)),
+            (List.range ndhi).map (fun (i : Nat) => ((1000000 + i : Nat) : Int))⟩
+          showW (fromDict d)
+        | _ => "bad-op"
+      if n = "N" then go none rest
+      else match n.toNat? with
+        | some k =>
+          match (rest.take k).mapM parseArr with
+          | some arrs => go (some arrs) (rest.drop k)
+          | none => "bad-op"
+        | none => "bad-op"
+    | _, _ => "bad-op"
+  | ["todict", "cont", ts, leap, stM, stD, endM, endD] =>
+    match nats [ts, stM, stD, endM, endD], bool? leap with
+    | some [ts, stM, stD, endM, endD], some l =>
+      let ap := wholeDayAP ts l stM stD endM endD
+      let d := toDict (withVals 0 true ap (contDts ap) false)
+      match d.datetimes with
+      | none => "ok N"
+      | some arrs => s!"ok {arrs.length} " ++ joinSp (arrs.map fun a => "-".intercalate (a.map toString))
+    | _, _ => "bad-op"
+  | "todict" :: "disc" :: ts :: leap :: _n :: rest =>
+    match ts.toNat?, bool? leap, nats rest with
+    | some ts, some l, some ms =>
+      match dtsOfMoys l ms with
+      | some dts =>
+        let d := toDict (withVals 0 false (AP.annual l ts) dts false)
+        match d.datetimes with
+        | none => "ok N"
+        | some arrs => s!"ok {arrs.length} " ++ joinSp (arrs.map fun a => "-".intercalate (a.map toString))
+      | none => "err:value"
+    | _, _, _ => "bad-op"
+  | "daysim" :: ts :: leap :: n :: rest =>
+    match ts.toInt?, bool? leap, n.toNat?, nats rest with
+    | some ts, some l, some n, some idx =>
+      let ids := (List.range n).map fun (i : Nat) => (i : Int)
+      match fromDaysim ids ids ts l with
+      | .error e => showE e
+      | .ok w => "ok " ++ atIdx w.dni idx toString
+    | _, _, _, _ => "bad-op"
+  | "const" :: v :: rest =>
+    match v.toInt? with
+    | some v =>
+      match toConstant (splitBar rest) v with
+      | .error e => showE e
+      | .ok ls => "ok " ++ joinSp (ls.map fun l => joinSp l ++ " |")
+    | none => "bad-op"
+  | ["count", n] =>
+    match n.toNat? with
+    | some n => s!"ok {countTimesteps n}"
+    | none => "bad-op"
+  | _ => "bad-op"
+
 end DrvC12
 
 def main : IO Unit := Drv.run DrvC12.handle
